@@ -151,9 +151,11 @@ func (w *World) main() {
 			}
 			if v4 != "" {
 				ni.IPv4[v4].PodID, ni.IPv4[v4].PodUID = ns+"/"+p.spec.Name, uid
+				w.firstOwner[v4] = p.uid
 			}
 			if v6 != "" {
 				ni.IPv6[v6].PodID, ni.IPv6[v6].PodUID = ns+"/"+p.spec.Name, uid
+				w.firstOwner[v6] = p.uid
 			}
 		}
 	}
@@ -846,9 +848,13 @@ func (w *World) checkNodeStatus(cur *networkv1beta1.Node) {
 		}
 		if ok, why := w.teardownConfirmed(pr.ip.PodID, pr.ip.PodUID); !ok {
 			fp := "bound-address-reclaimed-early"
-			if pr.ip.PodUID == "" {
+			if pod := w.truthPod(strings.TrimPrefix(pr.ip.PodID, ns+"/")); pr.ip.PodUID == "" && pod != nil && w.firstOwner[ip] != "" && string(pod.UID) != w.firstOwner[ip] {
+				// K8 for a taken-over binding (no uid in the record): the pod that exists is a
+				// namesake of the pod the binding was made for
+				fp += "@inherited-by-namesake"
+			} else if pr.ip.PodUID == "" {
 				fp += "@binding-without-uid"
-			} else if pod := w.truthPod(strings.TrimPrefix(pr.ip.PodID, ns+"/")); pod != nil && string(pod.UID) != pr.ip.PodUID {
+			} else if pod != nil && string(pod.UID) != pr.ip.PodUID {
 				// K8: a new pod of the same name took the binding of its vanished predecessor over
 				// (by name), then the controller dropped it: the predecessor's teardown was never
 				// waited for
